@@ -576,7 +576,7 @@ class SpectralDensity(DFunction, UnitsManaged):
         uvspl = interp.UnivariateSpline(self.axis.data, integr, s=0)
         integ = uvspl.integral(0.0, self.axis.max)/numpy.pi
 
-        return integ
+        return self.convert_energy_2_current_u(integ)
 
 
     def copy(self):
